@@ -1552,8 +1552,34 @@ func sxTargetedQueries(c *sCorpus) []*sxGq {
 		return ks
 	}
 	kws, words := rank(kwCount), rank(wordCount)
+	// sloppy phrases that repeat a term with another position in between ("a b a"~2): one token
+	// of a document must never fill two phrase positions (findPhrasePaths), so a document
+	// holding "a b" only does not match
+	var phrases []*sxGq
+	if len(words) >= 2 {
+		w := func(i int) string {
+			if i >= len(words) {
+				i = len(words) - 1
+			}
+			return words[i]
+		}
+		mk := func(slop int, ws ...string) *sxGq {
+			q := &sxGq{Kind: sxQPhrase, F: sxFT, Text: strings.Join(ws, " "), Slop: slop}
+			_, q.Phrase = sxAnalyseText(q.Text)
+			return q
+		}
+		phrases = []*sxGq{
+			mk(2, w(0), w(1), w(0)),
+			mk(2, w(1), w(0), w(1)),
+			mk(3, w(0), w(2), w(0)),
+			mk(4, w(0), w(1), w(2), w(0)),
+			mk(2, w(2), w(0), w(2)),
+			{Kind: sxQPhrase, F: sxFT, IsMulti: true, Phrase: [][]string{{w(0)}, {w(1), w(2)}, {w(0)}}, Slop: 2},
+			{Kind: sxQPhrase, F: sxFT, IsMulti: true, Phrase: [][]string{{w(1)}, {""}, {w(1)}}, Slop: 3},
+		}
+	}
 	if len(kws) == 0 || len(words) == 0 {
-		return nil
+		return phrases
 	}
 	pick := func(l []string, i int) string {
 		if i >= len(l) {
@@ -1565,7 +1591,7 @@ func sxTargetedQueries(c *sCorpus) []*sxGq {
 	t := func(i int) *sxGq { return &sxGq{Kind: sxQTerm, F: sxFT, Term: pick(words, i)} }
 	conj := func(l ...*sxGq) *sxGq { return &sxGq{Kind: sxQBool, Must: l} }
 	disj := func(min int, l ...*sxGq) *sxGq { return &sxGq{Kind: sxQBool, Should: l, MinShould: min} }
-	return []*sxGq{
+	return append([]*sxGq{
 		conj(k(0), t(0)),
 		conj(k(0), t(1)),
 		conj(t(0), k(0), t(1)),
@@ -1576,7 +1602,7 @@ func sxTargetedQueries(c *sCorpus) []*sxGq {
 		disj(1, k(0), k(1)),
 		disj(1, t(2), k(1), k(2)),
 		disj(2, k(0), t(0), t(1)),
-	}
+	}, phrases...)
 }
 
 // ---------------------------------------------------------------- the engine
